@@ -366,6 +366,7 @@ func readFull(c net.Conn, b []byte) (int, error) {
 var exCtr atomic.Int32
 var oversize bool
 var workerPause time.Duration
+var planOf func(ex int) (string, string)
 
 type exchanger interface {
 	ExchangeContext(ctx context.Context, m []byte) (*dnsmsg.Msg, error)
@@ -412,7 +413,12 @@ func doExchange(u exchanger, rng *rand.Rand, timeout time.Duration, quiet bool) 
 	defer cancel()
 	dl, _ := ctx.Deadline()
 	if !quiet {
-		tr.Emit("ex.begin", "ex", ex, "id", int(id), "deadline", tr.MsOf(dl))
+		if planOf != nil {
+			u, t := planOf(ex)
+			tr.Emit("ex.begin", "ex", ex, "id", int(id), "deadline", tr.MsOf(dl), "udp", u, "tcp", t)
+		} else {
+			tr.Emit("ex.begin", "ex", ex, "id", int(id), "deadline", tr.MsOf(dl))
+		}
 	}
 	r, err := u.ExchangeContext(ctx, w)
 	if quiet {
